@@ -532,3 +532,87 @@ def nearest_sorted(keys, wanted):
     ("C18", "neutral", [], LOC, "        stop = pv[-1] + d0\n        if stop < 0:\n            stop = None\n        return slice(pv[0], stop, d0)\n",
      "        return slice(pv[0], None if (stop := pv[-1] + d0) < 0 else stop, d0)\n", "index2slice: walrus for the stop"),
 ]
+
+RECIPES += [
+    ("C18", "neutral", [], N2P, _MKDOFPV_TAIL, '''    i = np.argsort(uset_set)
+    sorted_keys = uset_set[i]
+    pvi = np.searchsorted(uset_set, _dof, sorter=i)
+    pvi = np.where(pvi < i.size, pvi, i.size - 1)
+    chk = sorted_keys[pvi] != _dof
+    pv = i[pvi]
+    if chk.any():
+        if strict:
+            raise ValueError("missing")
+        chk = ~chk
+        pv = pv[chk]
+        dof = dof[chk]
+    return pv, dof
+''', "mkdofpv: re-check against the sorted keys at the clamped index (uset_set[i][pvi])"),
+    ("C18", "neutral", [], OP2, "sset = (uset & n2p.mkusetmask(\"s\")) != 0", "sset = (uset & n2p.mkusetmask()[\"s\"]) != 0", "_rdop2uset: mkusetmask()['s']"),
+    ("C18", "break", ["C18-R1b"], OP2, "sset = (uset & n2p.mkusetmask(\"s\")) != 0", "sset = (uset & n2p.mkusetmask()[\"b\"]) != 0", "_rdop2uset: mkusetmask()['b']"),
+    ("C18", "break", ["C18-R1b"], OP2, "sset = (uset & n2p.mkusetmask(\"s\")) != 0", "sset = (uset & n2p.mkusetmask(\"s\")) == 0", "_rdop2uset: inverted selection"),
+]
+
+# ---- constructs met in the independent third round of refactoring patches (stored as neutral/C18-N9..N12)
+RECIPES += [
+    ("C18", "neutral", [], N2P, '''        sets = nasset.split("+")
+        usetmask1 = 0
+        for set_ in sets:
+            usetmask1 = usetmask1 | usetmask[set_]
+        return usetmask1
+''', '''        usetmask1 = 0
+        sets = iter(nasset.split("+"))
+        while True:
+            try:
+                set_ = next(sets)
+            except StopIteration:
+                return usetmask1
+            usetmask1 |= usetmask[set_]
+''', "mkusetmask: while True / next() / except StopIteration instead of the for loop"),
+    ("C18", "neutral", [], N2P, "    pvi[pvi == i.size] -= 1\n    pv = i[pvi]\n\n    chk", "    pvi -= pvi == i.size\n    pv = i[pvi]\n\n    chk",
+     "mkdofpv: clamp written as index -= (index == size)"),
+    ("C18", "break", ["C18-R3"], N2P, "    pvi[pvi == i.size] -= 1\n    pv = i[pvi]\n\n    chk", "    pvi -= pvi > i.size\n    pv = i[pvi]\n\n    chk",
+     "mkdofpv: index -= (index > size) never clamps"),
+    ("C18", "neutral", [], N2P, "        rg = range(1, 7) if grids_only else range(7)", "        rg = np.arange(int(bool(grids_only)), 7)",
+     "expanddof: component list np.arange(int(bool(grids_only)), 7) - arithmetic on the flag, no branch"),
+    ("C18", "break", ["C18-R4"], N2P, "        rg = range(1, 7) if grids_only else range(7)", "        rg = np.arange(1 - int(bool(grids_only)), 7)",
+     "expanddof: arithmetic on the flag the wrong way round"),
+    ("C18", "break", ["C18-R4"], N2P, "        return np.zeros((0, 2), dtype=np.int64)", "        return np.zeros((1, 2), dtype=np.int64)",
+     "expanddof: an empty request returns a row of zeros"),
+    ("C18", "neutral", [], LOC, '''    d = np.diff(pv)
+    d0 = d[0]
+    if d0 != 0 and np.all(d == d0) and pv[0] >= 0 and pv[-1] >= 0:
+        stop = pv[-1] + d0
+        if stop < 0:
+            stop = None
+        return slice(pv[0], stop, d0)
+''', '''    d0 = _common_step(pv)
+    if d0 is not None and pv[0] >= 0 and pv[-1] >= 0:
+        stop = pv[-1] + d0
+        return slice(pv[0], _none_if(stop, stop < 0), d0)
+''', "index2slice: step from a helper that returns None when there is none (helpers defined by the next recipe's text are appended here)"),
+    ("C18", "neutral", [], LOC, "    if pv.size == 0:\n        return slice(0)\n", "    if pv.size == 0:\n        return slice(None, 0)\n", "index2slice: slice(None, 0) for the empty vector"),
+]
+# the helpers of the `_common_step` recipe live in the same replaced text: put them in front of the function that follows index2slice
+_r = RECIPES[-2]
+RECIPES[-2] = (_r[0], _r[1], _r[2], _r[3], _r[4] + '''    if not strict:
+        return pv
+    raise ValueError("invalid partition vector for conversion to slice")
+''', _r[5] + '''    if not strict:
+        return pv
+    raise ValueError("invalid partition vector for conversion to slice")
+
+
+def _common_step(pv):
+    d = np.diff(pv)
+    d0 = d[0]
+    if d0 != 0 and np.all(d == d0):
+        return d0
+    return None
+
+
+def _none_if(stop, unusable):
+    if unusable:
+        stop = None
+    return stop
+''', "index2slice: step from a helper that returns None when there is none, stop through a `_none_if(stop, test)` helper")
